@@ -333,18 +333,16 @@ followed by `np.array(graph.get_adjacency(type=2).data)` -/
 def simplified (es : List (Nat × Nat)) : Adj := fun a b =>
   a != b && es.any fun e => (e.1 == a && e.2 == b) || (e.2 == a && e.1 == b)
 
-/-- which igraph call `Network.ErdosRenyi(n_nodes, link_probability, n_links)` makes -/
-inductive ERCall | byProbability | byLinkCount
-deriving DecidableEq, Repr
-
-/-- the argument dispatch of `Network.ErdosRenyi` (`network.py`): `link_probability is not None and
-n_links is None` → `Erdos_Renyi(n, p=…)`; `link_probability is None and n_links is not None` →
-`Erdos_Renyi(n, m=n_links)`; otherwise (both or neither) `ValueError` (`none`).  The returned matrix is
-`np.array(graph.get_adjacency(type=2).data)` = `fromEdges n_nodes (graph.get_edgelist())` for the simple
-graph igraph returns; `Network.WattsStrogatz` is the same read-out of `Watts_Strogatz(1, N, k, p)`. -/
+/-- the argument dispatch of `Network.ErdosRenyi` (`network.py`), executed from the *generated*
+tests and branches (`erTest1/2`, `erBranch1/2`: `translate/gen_C17.py` regenerates them from the source on
+every run): `if link_probability is not None and n_links is None` → `Erdos_Renyi(n, p=…)`; `elif
+link_probability is None and n_links is not None` → `Erdos_Renyi(n, m=n_links)`; `else` `ValueError`
+(`none`).  The returned matrix is `np.array(graph.get_adjacency(type=2).data)` (`erReturn`) =
+`fromEdges n_nodes (graph.get_edgelist())` for the simple graph igraph returns; `Network.WattsStrogatz`
+is the same read-out of `Watts_Strogatz(dim=1, size=N, nei=k, p=p)` (`wsCall`, `wsReturn`). -/
 def erdosRenyiCall (hasProbability hasLinkCount : Bool) : Option ERCall :=
-  if hasProbability && !hasLinkCount then some .byProbability
-  else if !hasProbability && hasLinkCount then some .byLinkCount
+  if erTest1 hasProbability hasLinkCount then some erBranch1
+  else if erTest2 hasProbability hasLinkCount then some erBranch2
   else none
 
 /-- is there a pair of listed cross links the `while True` of `_randomlyRewireCrossLinks` accepts?
